@@ -190,7 +190,7 @@ func diffToEvents(a, b *Cluster, seed int64) []Event {
 	for i := range b.Pods {
 		if a.pod(b.Pods[i].NS, b.Pods[i].Name) == nil {
 			p := b.Pods[i]
-			podEv = append(podEv, Event{Kind: "pod-add", Pod: &p})
+			podEv = append(podEv, Event{Kind: "pod-add", Pod: &p, WithIP: rng.Intn(2) == 0})
 		}
 	}
 	for i := range a.Policies {
@@ -539,6 +539,12 @@ func evalC16T(tc *C16Trans) *c16Result {
 		for i, ev := range diffToEvents(tc.A, tc.B, tc.EventSeed) {
 			hname, deliver := stageEvent(e, model, ev)
 			res.counters["t_events_"+ev.Kind]++
+			if ev.Kind == "pod-add" && ev.WithIP && ev.Pod != nil && ev.Pod.IP != "" {
+				res.counters["t_events_pod-add_first_event_has_ip"]++
+				if len(tc.Ops) == 1 {
+					res.counters["single_mutation_pod-add_first_event_has_ip"]++
+				}
+			}
 			if pi := deliver(); pi != nil {
 				res.addViol("c16-panic-in-"+pi.Func+"-in-"+hname+"-handler", fmt.Sprintf("event %d (%s) panicked: %s", i, ev.Kind, pi.Value), pi)
 			}
